@@ -12,13 +12,15 @@ Driver for the rolling appender; the case format is shared by C05, C06 and C17.
             (answers: a word over y n e, `-` = empty script; exhausted script answers n)
   roller  = delete | fw:<base>:<count>:<pattern 0..4>
   ops     = `,`-joined:  record | r (restart) | c<dt> (clock advances) | f<k>!record (step k of the rotation fails)
+            | g!record (the roller does its work and then reports Err) | e<n>!record (the encoder fails after n slices)
   pre-existing content: active = genBytes 999000 size, archive idx = genBytes (998000+idx) size
   patterns: 0 app.log.{}   1 arch/app.{}.log   2 app.log.{}.gz   3 arch/{}/app.log.zst   4 app.{}.{}.log
 
 observation
-  seq : `,`-joined, first the state after build, then one entry per op:  <res>!<consult>!<snapshot>
+  seq : `,`-joined, first the state after build, then one entry per op:  <res>!<consult>!<calls>!<snapshot>
+        calls = number of `Roll::roll` invocations during the op (counted by the harness's roller wrapper)
         res = ok | err | PANIC | - ; consult = <shown>=<actual> | - ; snapshot = `;`-joined name=hex (sorted), `~` if empty
-  conc: <acks `|`-joined per thread>!<snapshot>
+  conc: <acks `|`-joined per thread>!<calls>!<snapshot>
 -/
 namespace Driver.C05
 open Log4rs.Proto Log4rs.Rolling Driver
@@ -52,9 +54,20 @@ def rollerCfg (base count pat : Nat) : RollerCfg :=
   { nameOf := patName pat, base, count,
     comp := if pat = 2 then .gzip else if pat = 3 then .zstd else .none, codec := id }
 
-def rollFn : RollSpec → RollFn
+/-- fault index used for "the roller does all its work and then reports `Err`" (the harness's
+roller wrapper fails once after the real roller returned `Ok`) -/
+def LATE : Nat := 1000000
+
+def rollFnPlain : RollSpec → RollFn
   | .delete => fun p f d => deleteRoll p f d
   | .fw b c pat => fun p f d => fixedWindowRoll (rollerCfg b c pat) p f d
+
+def rollFn (rs : RollSpec) : RollFn := fun p f d =>
+  if f LATE then
+    match rollFnPlain rs p (fun _ => false) d with
+    | (.ok _, d') => (.error (.injected LATE), d')
+    | e => e
+  else rollFnPlain rs p f d
 
 /-- the harness can inject a fault only where `rotate_point` is called -/
 def RollSpec.hasHook : RollSpec → Bool
@@ -89,7 +102,20 @@ def decRoll (s : String) : Option RollSpec :=
 structure OpSpec where
   op : Op
   rec? : Option RecSpec
+  /-- `some n`: the encoder fails after `n` slices (the op is then run as `XOp.appendFail`) -/
+  fail : Option Nat := none
   deriving Repr
+
+def OpSpec.xop (o : OpSpec) : XOp :=
+  match o.fail, o.op with
+  | some n, .append r f => .appendFail r n f
+  | _, op => .op op
+
+/-- a failing encoder that has written something -/
+def OpSpec.torn (o : OpSpec) : Bool :=
+  match o.fail, o.rec? with
+  | some n, some r => !(r.chunks.take n).flatten.isEmpty
+  | _, _ => false
 
 def decOp (hook : Bool) (s : String) : Option OpSpec :=
   if s = "r" then some { op := .restart, rec? := none } else
@@ -100,6 +126,14 @@ def decOp (hook : Bool) (s : String) : Option OpSpec :=
     | [k, r] =>
       match decNat k, decRec r with
       | some k, some r => some { op := .append r.chunks (if hook then some k else none), rec? := some r }
+      | _, _ => none
+    | _ => none
+  | 'g' :: '!' :: rest => (decRec (String.ofList rest)).map (fun r => { op := .append r.chunks (some LATE), rec? := some r })
+  | 'e' :: rest =>
+    match splitOnChar '!' (String.ofList rest) with
+    | [n, r] =>
+      match decNat n, decRec r with
+      | some n, some r => some { op := .append r.chunks none, rec? := some r, fail := some n }
       | _, _ => none
     | _ => none
   | _ => (decRec s).map (fun r => { op := .append r.chunks none, rec? := some r })
@@ -147,12 +181,12 @@ def Case.window (c : Case) : Nat × Nat :=
   | .delete => (0, 0)
 
 /-- run the model: the state after build, then after every op -/
-def Case.trace (c : Case) (ops : List Op) : List (Option Out × Disk) :=
+def Case.trace (c : Case) (ops : List XOp) : List (Option Out × Disk) :=
   let d0 := c.disk0
   let go {σ : Type} (trig : Trigger σ) (t0 : σ) : List (Option Out × Disk) :=
     let cfg : Cfg σ := { path := activePath, appendMode := c.appendMode, trig, roll := rollFn c.roll }
     let s0 := init cfg d0 t0 c.clock0
-    (none, s0.disk) :: (Log4rs.Rolling.trace cfg s0 ops).map (fun (o, s) => (o, s.disk))
+    (none, s0.disk) :: (Log4rs.Rolling.traceX cfg s0 ops).map (fun (o, s) => (o, s.disk))
   match c.trig with
   | .size n => go (sizeTrigger n) ()
   | .startup m => go (onStartupTrigger m) false
@@ -172,8 +206,13 @@ def renderConsult : Option Out → String
   | some { consult := some (a, b), .. } => toString a ++ "=" ++ toString b
   | _ => "-"
 
+/-- how often the roller is invoked by the op: once iff the trigger fired -/
+def callsOf : Option Out → Nat
+  | some o => if o.rolled.isSome then 1 else 0
+  | none => 0
+
 def renderEntry (e : Option Out × Disk) : String :=
-  renderRes e.1 ++ "!" ++ renderConsult e.1 ++ "!" ++ renderSnap e.2.files
+  renderRes e.1 ++ "!" ++ renderConsult e.1 ++ "!" ++ toString (callsOf e.1) ++ "!" ++ renderSnap e.2.files
 
 /-! ### parsing the implementation's observation -/
 
@@ -182,6 +221,7 @@ structure ObsEntry where
   consult : Option (Nat × Nat)
   snap : Spec.Snap
   snapS : String
+  calls : Nat
 
 def decSnap (s : String) : Option Spec.Snap :=
   mapM? (fun e => match splitOnChar '=' e with
@@ -190,7 +230,7 @@ def decSnap (s : String) : Option Spec.Snap :=
 
 def decEntry (s : String) : Option ObsEntry :=
   match splitOnChar '!' s with
-  | [res, cons, snap] =>
+  | [res, cons, callsS, snap] =>
     let consult : Option (Option (Nat × Nat)) :=
       if cons = "-" then some none else
       match splitOnChar '=' cons with
@@ -198,9 +238,9 @@ def decEntry (s : String) : Option ObsEntry :=
         | some a, some b => some (some (a, b))
         | _, _ => none
       | _ => none
-    match consult, decSnap snap with
-    | some consult, some snap' => some { res, consult, snap := snap', snapS := snap }
-    | _, _ => none
+    match consult, decSnap snap, decNat callsS with
+    | some consult, some snap', some calls => some { res, consult, snap := snap', snapS := snap, calls }
+    | _, _, _ => none
   | _ => none
 
 /-! ### C05 specification on the implementation's observation -/
@@ -272,7 +312,7 @@ def withSeq (cas obs : List String)
       match mapM? (decOp c.roll.hasHook) (decList ',' opsS) with
       | none => badCase "ops"
       | some ops =>
-        let tr := c.trace (ops.map (·.op))
+        let tr := c.trace (ops.map (·.xop))
         if implObs = "PANIC" then
           { model := encList "," (tr.map renderEntry), spec := "FAIL:panic;sig=" ++ c.sig "C05" ++ "-panic", tags := ["panic"] }
         else match mapM? decEntry (decList ',' implObs) with
@@ -334,18 +374,19 @@ structure ConcCase where
   snapS : String
   acksS : String
   snap : Spec.Snap
+  calls : Nat
 
 def withConc (cas obs : List String) (k : ConcCase → Answer) : Answer :=
   match cas, obs with
   | ["conc", m, pre, arch, trig, roll, clock, ampS, thS], [implObs] =>
     let thr := (decList '|' thS).map (fun t => mapM? decRec (decList ',' t))
     match decCase m pre arch trig roll clock, decNat ampS, mapM? id thr, splitOnChar '!' implObs with
-    | some c, some amp, some threads, [acksS, snapS] =>
-      match mapM? (fun t => mapM? decNat (decList ',' t)) (decList '|' acksS), decSnap snapS with
-      | some acks, some snap =>
+    | some c, some amp, some threads, [acksS, callsS, snapS] =>
+      match mapM? (fun t => mapM? decNat (decList ',' t)) (decList '|' acksS), decSnap snapS, decNat callsS with
+      | some acks, some snap, some calls =>
         if acks.length ≠ threads.length then badCase "acks arity"
-        else k { c, amp, threads, acks, snapS, acksS, snap }
-      | _, _ => badCase "conc observation"
+        else k { c, amp, threads, acks, snapS, acksS, snap, calls }
+      | _, _, _ => badCase "conc observation"
     | _, _, _, _ => badCase "conc case"
   | _, _ => badCase "arity"
 
@@ -358,10 +399,14 @@ def ConcCase.wellAcked (cc : ConcCase) : Bool :=
 
 /-- the serial schedule thread 0, thread 1, … through the model (shown when the observation is not admitted) -/
 def ConcCase.serial (cc : ConcCase) : String :=
-  let ops := cc.threads.flatMap (fun t => t.map (fun r => Op.append r.chunks none))
+  let ops := cc.threads.flatMap (fun t => t.map (fun r => XOp.op (Op.append r.chunks none)))
   let tr := cc.c.trace ops
   let allAcks := encList "|" (cc.threads.map (fun t => encList "," (t.map (fun r => toString r.id))))
-  allAcks ++ "!" ++ (match tr.getLast? with | some e => renderSnap e.2.files | none => "~")
+  let calls := (tr.map (fun e => callsOf e.1)).sum
+  allAcks ++ "!" ++ toString calls ++ "!" ++ (match tr.getLast? with | some e => renderSnap e.2.files | none => "~")
+
+/-- echo of an admitted observation -/
+def ConcCase.echo (cc : ConcCase) : String := cc.acksS ++ "!" ++ toString cc.calls ++ "!" ++ cc.snapS
 
 def ConcCase.tags (cc : ConcCase) : List String :=
   ["conc", "threads-" ++ toString cc.threads.length, "amp-" ++ toString cc.amp,
@@ -378,15 +423,22 @@ def handleSeq (cas obs : List String) : Answer :=
           "FAIL:after build the retained files are not the pre-existing contents;sig=" ++ c.sig "C05" ++ "-open"
         else match specC05Go c 0 c.preItems ops rest with
           | none => "ok"
-          | some why => "FAIL:" ++ why ++ ";sig=" ++ c.sig "C05"
-    let tags := modelTags c ops tr
+          | some why =>
+            -- the known defect: the code does what the model says and the torn prefix of a record
+            -- whose encoder failed sits in a file
+            if ops.any OpSpec.torn ∧ obs = [model] then
+              "FAIL:" ++ why ++ " (torn prefix of a record whose encoder failed);sig=C05/encoder-error-torn"
+            else "FAIL:" ++ why ++ ";sig=" ++ c.sig "C05"
+    let tags := modelTags c ops tr ++ (if ops.any OpSpec.torn then ["encoder-error-torn"] else []) ++
+      (if ops.any (fun o => o.fail.isSome) then ["encoder-error"] else []) ++
+      (if ops.any (fun o => match o.op with | .append _ (some k) => k == LATE | _ => false) then ["roller-late-err"] else [])
     { model, spec, tags := if ops.isEmpty then "trivial" :: tags else "seq" :: tags }
 
 def handleConc (cas obs : List String) : Answer :=
   withConc cas obs fun cc =>
     let pre := cc.c.preItems.map (·.bytes)
     let ok := cc.wellAcked && mergeSuffixOfWhole (cc.acked ++ [pre]) (cc.c.files cc.snap)
-    { model := if ok then cc.acksS ++ "!" ++ cc.snapS else cc.serial,
+    { model := if ok then cc.echo else cc.serial,
       spec := if ok then "ok" else
         "FAIL:retained files are not whole acknowledged records in per-thread order (suffix by whole files);sig=" ++ cc.c.sig "C05" ++ "-conc",
       tags := cc.tags }
